@@ -268,7 +268,7 @@ pub fn judge(text: &str) -> Verdict {
     let mut pred_hint: Option<&'static str> = None;
     let mut ri = 0usize; // index into reference tokens
     for (ti, pt) in toks.iter().enumerate() {
-        let sp = pt.span;
+        let sp = crate::harness::sp_of(&pt.span);
         let name = token_name(&pt.token);
         // reference token expected at this index (same order) if no error before
         let rtok = rf.get(ri);
@@ -457,7 +457,7 @@ fn record(acc: &mut Stats, text: &str, engine_part: &str, maxlen: usize) {
             acc.fail(Failure {
                 sig,
                 preds,
-                detail: format!("input {:?}\n{}", text, detail),
+                detail: if text.len() > 4000 { format!("input of {} bytes starting {:?} and ending {:?}\n{}", text.len(), text.chars().take(120).collect::<String>(), text.chars().rev().take(120).collect::<Vec<_>>().into_iter().rev().collect::<String>(), detail.chars().take(4000).collect::<String>()) } else { format!("input {:?}\n{}", text, detail) },
                 case: json!({"engine": "c17", "part": engine_part, "text": text}),
                 size: text.len(),
             });
@@ -564,10 +564,39 @@ pub fn run(run: &mut Run) {
     st.merge(Stats::merge_all(accs));
     st.count("corpus_files", texts.len() as u64);
 
+    // part 4: long inputs - one line shape repeated N times, then a few tokens whose positions must still be right
+    // (offsets, line numbers and multi-byte counts beyond 255 / 65535)
+    {
+        let units: [(&str, &str); 9] = [
+            ("non-ascii-comment", "// åäö€😀 kommentar\n"),
+            ("non-ascii-string", "s :: \"åäö€😀\"\n"),
+            ("ascii-statement", "x := 1 + 2\n"),
+            ("blank", "\n"),
+            ("tab-indented", "\t\ty := 2.5\n"),
+            ("crlf", "z := \"é\"\r\n"),
+            ("string-over-two-lines", "m :: \"å\nä\"\n"),
+            ("no-line-breaks", "q + \"ö\" "),
+            ("no-line-breaks-ascii", "qq - 1 "),
+        ];
+        let tails = ["print(\"åäö\", missing)\nx := 1 <=> 2\n", "end )\n"];
+        let counts: &[usize] = if thorough { &[100, 255, 256, 257, 9000, 22000, 65535, 65536, 65537, 70000] } else { &[100, 257, 9000, 70000] };
+        let mut long: Vec<String> = Vec::new();
+        for (_, u) in units {
+            for &n in counts {
+                for t in tails {
+                    long.push(format!("{}{}", u.repeat(n), t));
+                }
+            }
+        }
+        let accs = crate::pool::par_items(&long, 1, |_| Stats::new(), |acc, _, t| record(acc, t, "long", maxlen as usize));
+        st.merge(Stats::merge_all(accs));
+        st.count("long_inputs", long.len() as u64);
+    }
+
     st.states = st.evaluations;
     st.transitions = st.evaluations;
     st.traces_validated = st.evaluations;
-    run.rule = "every string over the 28-character alphabet up to the length bound, every sequence of lexeme atoms up to the bound (with/without separators), plus the repository's .sy files; plus, end to end through the compiler, 270 files (9 preceding-text shapes x 5 syntax errors with a known offending token x 3 indentations x LF / CRLF) whose first reported error span must be that token's place in the file; non-trivial = the implementation produced at least two tokens; distinct by text".into();
+    run.rule = "every string over the 28-character alphabet up to the length bound, every sequence of lexeme atoms up to the bound (with/without separators), plus the repository's .sy files; plus long inputs (each of 9 line shapes - non-ASCII comments and strings, statements, blank, tab-indented, CRLF, strings over two lines, no line breaks at all - repeated 100 .. 70000 times and followed by a few tokens); plus, end to end through the compiler, 270 files (9 preceding-text shapes x 5 syntax errors with a known offending token x 3 indentations x LF / CRLF) whose first reported error span must be that token's place in the file; non-trivial = the implementation produced at least two tokens; distinct by text".into();
     run.bounds = json!({"char_alphabet": CHARS, "max_chars": maxlen, "atoms": at.len(), "atom_seq_len": 3, "atom_separators_len3": seps3});
     run.assumptions = vec![
         "reference lexer = DESIGN.md Appendix D (longest match; keyword>identifier; numeric conversion failure = error token)".into(),
